@@ -95,6 +95,39 @@ func main() {
 			}
 		}
 	}
+	// collections around the readers' pre-allocation cap (32768): exactly at it, one above, well above — on the last
+	// (thorough: also the first) protocol each array-carrying type is registered for
+	bigN := 0
+	for _, name := range pk.BigArrayTypes {
+		first, last := -1, -1
+		for i, e := range entries {
+			if e.Name == name && !(name == "config.KnownPacks" && e.Dir == proto.ServerBound) {
+				if first < 0 {
+					first = i
+				}
+				last = i
+			}
+		}
+		if last < 0 {
+			continue
+		}
+		idxs := []int{last}
+		if run.Thorough() && first != last {
+			idxs = append(idxs, first)
+		}
+		for _, i := range idxs {
+			for _, n := range []int{32768, 32769, 40000} {
+				e := entries[i]
+				g := &pk.G{R: run.Rng, E: e, Big: n}
+				out := hx.Guard(60*time.Second, func() string { return one(run, g, e, &encErr) })
+				if out != "" {
+					run.Case(e.Name+"/guard", "gort "+ctxStr(e), out)
+				}
+				bigN++
+			}
+		}
+	}
+	run.Extra["big_array_values"] = bigN
 	run.Extra["encode_rejected_generated_values"] = encErr
 	run.Finish()
 }
